@@ -973,6 +973,9 @@ package ircserver
 //@   assert@call append#3 : setw-built: callarg1[0] != nil && callarg1[0].Id != nil && snapId(callarg1[0]) == id && session == i.sessions[id] && setsSound(callarg1[0], session)
 //@   assert@call append#3 : setwc-built: callarg1[0] != nil && callarg1[0].Id != nil && snapId(callarg1[0]) == id && session == i.sessions[id] && setsComplete(callarg1[0], session)
 //@   assert@call append#3 : sess-built: callarg1[0] != nil && callarg1[0].Id != nil && callarg1[0].IrcPrefix != nil && snapId(callarg1[0]) == id && session == i.sessions[id] && sessRepr(callarg1[0], session) && modesOK(callarg1[0]) && modesRepr(callarg1[0], session)
+//@   assert@call append#3 : sess-kept-shape: forall k int :: 0 <= k && k < len(sessions) ==> sessions[k] != nil && allocated(sessions[k]) && sessions[k].Id != nil && sessions[k].IrcPrefix != nil && allocated(sessions[k].Id) && allocated(sessions[k].IrcPrefix) && allocated(sessions[k].LastActivity) && allocated(sessions[k].LastNonPing) && allocated(sessions[k].LastSolvedCaptcha) && modesOK(sessions[k]) && snapId(sessions[k]) in i.sessions && snapId(sessions[k]) != id
+//@   assert@call append#3 : sess-kept-repr: forall k int :: 0 <= k && k < len(sessions) ==> sessRepr(sessions[k], i.sessions[snapId(sessions[k])])
+//@   assert@call append#3 : sess-kept-modes: forall k int :: 0 <= k && k < len(sessions) ==> modesRepr(sessions[k], i.sessions[snapId(sessions[k])])
 //@   assert@call append#3 : sess-kept: forall k int :: 0 <= k && k < len(sessions) ==> sessEntryOK(sessions[k], i) && snapId(sessions[k]) != id
 //@   loop range i.sessions
 //@     invariant setw: (forall k int :: 0 <= k && k < len(sessions) ==> sessions[k] != nil && allocated(sessions[k]) && sessions[k].Id != nil && allocated(sessions[k].Id) && setsSound(sessions[k], i.sessions[snapId(sessions[k])]))
